@@ -7,9 +7,10 @@
    and the same content.  For a spelling of zone z the complete text must load to z.
 
    Writer traces (kind "write"): the zone built through the API must be the requested
-   one; the text produced by the real writer, lexed back into abstract lines, must be an
-   output the writer specification allows for that style; reading the text back with the
-   real reader must give the original zone, and Zone == must say so. *)
+   one; the real writer must not refuse a lossless style; reading its text back with the
+   real reader must give the original zone (content and TTLs), and Zone == must say so.
+   Conformance of the text itself to the writer specification is validated in separate
+   traces (kind "conf") whose rejection is drift, not a violation. *)
 EXTENDS ZfUniverse, VTrace
 
 VARIABLES t, l
@@ -57,13 +58,21 @@ TBuilt ==
     /\ Check(t, l, "Built", LogRecs(e.zone) = LogRecs(Log[t].zone))
     /\ UNCHANGED vars /\ Adv
 
+(* hard: the writer does not refuse a lossless style *)
 TWrite ==
     /\ e.op = "write"
     /\ Check(t, l, "WriterTotal", e.res # "err")
+    /\ UNCHANGED vars /\ Adv
+
+(* SOFT (traces of kind "conf", reported as drift, never as a violation): the output, lexed back
+   into abstract lines, is one the writer specification allows for the style, carries the
+   comments asked for, and denotes the zone under the specification's own reader.  A harmless
+   change of the output format would fail here and still pass the hard round trip below. *)
+TConf ==
+    /\ e.op = "wconf"
     /\ Check(t, l, "WriterLexable", e.res = "ok")
     /\ Check(t, l, "WriterConforms", IsWrite(e.lines, Src, Log[t].rel, Log[t].style))
     /\ Check(t, l, "WriterComments", e.ncomments = IF Log[t].style.comments THEN Len(Log[t].zone) ELSE 0)
-    \* the specification's own reader, applied to what the writer produced, yields the zone
     /\ Check(t, l, "WriterDenotes",
              LET r == Read(e.lines, Log[t].og) IN r.status = "ok" /\ r.zone = Src)
     /\ UNCHANGED vars /\ Adv
@@ -78,7 +87,7 @@ TReread ==
 
 TraceNext ==
     /\ l <= Len(Ev(t))
-    /\ \/ TLine \/ TSpelled \/ TBuilt \/ TWrite \/ TReread
+    /\ \/ TLine \/ TSpelled \/ TBuilt \/ TWrite \/ TConf \/ TReread
 
 Accepted == Accepting(t, l)
 =============================================================================
